@@ -225,6 +225,12 @@ def main(tier):
         if r["text"]:
             texts.add(r["text"])
         if r["status"] == "inconclusive":
+            f = classify_known(r, known)
+            if f is not None:
+                # a member of a listed class (e.g. a field named choose_experiment_variant is rebound by the nested
+                # def and its address-dependent str() becomes the key): counted under the finding, not decided here
+                known_hits.setdefault(f["class"], [])
+                continue
             rep.inconc("%s: %s" % (r["kind"], r.get("note")))
         elif r["status"] == "violation":
             witnesses.append((r, r["witness"]))
